@@ -1,4 +1,4 @@
-"""C14 -- rope's view of source text agrees with the tokenizer (RCA rules R14.1-R14.16)."""
+"""C14 -- rope's view of source text agrees with the tokenizer (RCA rules R14.1-R14.18)."""
 from __future__ import annotations
 
 import ast
@@ -24,6 +24,7 @@ EXPLANATION = (
     " R14.11: the language of rope's string-literal body pattern equals the tokenizer's, lookaheads included (exact, derivative engine sa/rederiv.py).  R14.12: the scanners feeding the bracket counters match all six bracket characters.  R14.13: in the logical-line scanner '#' and brackets act only on CFG paths where the in-string state was tested off."
     ' R14.14 (=R06.9): returned text comes from the raw source.  R14.15: blank lines are skipped only between logical lines, never while one is open.'
 )
+EXPLANATION += " R14.17: identifier characters are the interpreter's.  R14.18: an escaped token is skipped one character at a time where the token pattern has multi-character alternatives."
 EXPLANATION += ' R14.16: a whole-text bracket scan over the simplified text (where f-strings survive) reads the string regions; the backward bracket searches of the word finder step over strings through a quote-testing method.'
 ASSUMPTIONS = ["tokenize's own Comment pattern and _all_string_prefixes() are the oracle for the token language"]
 
@@ -322,6 +323,7 @@ def check(ctx, res) -> None:
     # ---- R14.6 line tables split at '\\n' only
     line_table_rule(ctx, res, "R14.6")
     fstring_aware_bracket_rule(ctx, res, "R14.16")
+    escaped_token_resume_rule(ctx, res, "R14.18")
     from .common import identifier_char_rule
 
     identifier_char_rule(ctx, res, "R14.17", ("rope.base.worder", "rope.base.simplify", "rope.base.codeanalyze"), rest=True)
@@ -678,3 +680,58 @@ def fstring_aware_bracket_rule(ctx, res, rule: str = "R14.16") -> None:
                     "a bracket inside an f-string (kept in the simplified text) or the quote itself is taken for code", function=m.qualname)
     res.floor(rule, "whole-text bracket scans", n_a, 1)
     res.floor(rule, "backward bracket searches of the word finder", n_b, 2)
+
+
+def escaped_token_resume_rule(ctx, res, rule: str = "R14.18") -> None:
+    """R14.18: a backslash escapes ONE character.  The logical-line scanner captures the run of backslashes together with the
+    token that follows; that token can be three characters long (`'''`, `\"\"\"`).  When the run is odd only the token's first
+    character is escaped -- in `x = \"\"\"a\\\"\"\"\"` the three quotes after the escaped one close the string.  If the
+    scanner's token pattern has an alternative longer than one character after the backslash group, then on the branch that
+    skips an escaped token the next search position is set to one past the START of the token group
+    (`match.start(k) + 1`) and the search loop uses that position; a `finditer` loop cannot do that, it resumes after
+    the whole match."""
+    from .. import rca
+    idx = ctx.idx
+    f = idx.need_func("rope.base.codeanalyze._CustomGenerator._analyze_line")
+    pats = {name: const_str(v.args[0]) for name, v in (f.cls.class_attrs.items() if f.cls else []) if isinstance(v, ast.Call) and call_name(v) == "compile" and v.args and const_str(v.args[0])}
+    pat = next((p for p in pats.values() if p.startswith("(\\\\*)")), None)
+    if pat is None:
+        # the scanner no longer captures the backslash run (a look-behind, say): how it then decides "escaped" is R14.5's
+        # question, there is no skip of a captured token to resume from
+        res.analysed[f"escaped-token skips of the logical-line scanner:{rule}"] = 0
+        return
+    try:
+        nfa = rca.build(pat, erase_assertions=True)
+        multi = [t for t in ("'''", '"""', "''", '""') if rca.accepts(nfa, t)]
+    except Exception as e:
+        raise AnalysisError(f"token pattern not analysable: {e}")
+    cfg = CFG(f.node)
+    n = 0
+    for nd in cfg.nodes:
+        if not (nd.kind == "stmt" and isinstance(nd.ast, ast.Continue)):
+            continue
+        gs = [t for t, pol in cfg.guards(nd.id) if pol and any(isinstance(x, ast.BinOp) and isinstance(x.op, ast.Mod) for x in ast.walk(t))]
+        if not gs:
+            continue
+        n += 1
+        if not multi:
+            res.add(rule, f"_analyze_line|escaped-token-resume#{n}", True, f"{f.unit.rel}:{nd.lineno}", "every token after the backslash run is one character long")
+            continue
+        # statements that run only under the parity guard: is the search position moved to start(k) + 1 there?
+        moved = None
+        for other in cfg.nodes:
+            st = other.ast
+            if other.kind == "stmt" and isinstance(st, ast.Assign) and len(st.targets) == 1 and isinstance(st.targets[0], ast.Name) and isinstance(st.value, ast.BinOp) \
+                    and isinstance(st.value.op, ast.Add) and isinstance(st.value.right, ast.Constant) and st.value.right.value == 1 \
+                    and isinstance(st.value.left, ast.Call) and call_name(st.value.left) == "start" \
+                    and any(any(t is g for g in gs) and pol for t, pol in cfg.guards(other.id)):
+                moved = st.targets[0].id
+        used = moved is not None and any(isinstance(c.func, ast.Attribute) and c.func.attr in ("search", "match") and len(c.args) >= 2 and isinstance(c.args[1], ast.Name) and c.args[1].id == moved
+                                         for c in calls_in(f.node))
+        res.add(rule, f"_analyze_line|escaped-token-resume#{n}", bool(used), f"{f.unit.rel}:{nd.lineno}",
+                "after an escaped token the search resumes one character after the backslash run" if used else
+                f"a token after an odd run of backslashes is skipped WHOLE (the pattern has the alternatives {multi} after the backslash group, and the scan resumes after the match): "
+                "in `x = \"\"\"a\\\"\"\"\"` the escaped quote and the two quotes behind it are skipped together, the closing quotes of the string are never seen, and all "
+                "following lines become one logical line", function=f.qualname)
+    # (no skip under a parity test at all is R14.5's finding, not this rule's)
+    res.analysed[f"escaped-token skips of the logical-line scanner:{rule}"] = n
